@@ -182,17 +182,24 @@ class Filter(object):
 
         feat2filter = np.unique(feat2filter)
 
+        # Check the configuration before modifying any box filter, such
+        # that a failed update leaves the filters consistent with
+        # `self._old_config`.
+        for feat in feat2filter:
+            fstart = feat + " min"
+            fend = feat + " max"
+            if ((fstart in cfg_cur and fend not in cfg_cur)
+                    or (fstart not in cfg_cur and fend in cfg_cur)):
+                # User is responsible for setting min and max values!
+                raise ValueError("Box filter: Please make sure that both "
+                                 "'{}' and '{}' are set!".format(fstart, fend))
+
         for feat in feat2filter:
             fstart = feat + " min"
             fend = feat + " max"
             must_be_filtered = (fstart in cfg_cur
                                 and fend in cfg_cur
                                 and cfg_cur[fstart] != cfg_cur[fend])
-            if ((fstart in cfg_cur and fend not in cfg_cur)
-                    or (fstart not in cfg_cur and fend in cfg_cur)):
-                # User is responsible for setting min and max values!
-                raise ValueError("Box filter: Please make sure that both "
-                                 "'{}' and '{}' are set!".format(fstart, fend))
             if feat in self.features:
                 # Get the current feature filter
                 feat_filt = self[feat]
